@@ -5,7 +5,12 @@ f=$1; pkg=$2; run=$3; repo=${4:-/repo}
 export GOFLAGS=-mod=mod GOPROXY=off GOSUMDB=off GOTOOLCHAIN=local
 ov=$(mktemp /tmp/ov.XXXX.json)
 base=$(basename $f)
-printf '{"Replace":{"%s/%s/zz_%s":"%s"}}' "$repo" "$pkg" "$base" "$f" > $ov
+# REPLAY_DROP_TESTS=1: the package's own test files (a TestMain that needs Docker) are left out of the build
+extra=""
+if [ -n "$REPLAY_DROP_TESTS" ]; then
+  for t in $repo/$pkg/*_test.go; do extra="$extra,\"$t\":\"\""; done
+fi
+printf '{"Replace":{"%s/%s/zz_%s":"%s"%s}}' "$repo" "$pkg" "$base" "$f" "$extra" > $ov
 (cd $repo && go test -overlay $ov -vet=off -count=1 -timeout 60s -run "$run" ./$pkg/ 2>&1 | tail -${TAILN:-15})
 rc=${PIPESTATUS[0]}
 rm -f $ov
